@@ -185,10 +185,58 @@ static J gen_special(Chooser &ch)
   if (ch.chance(30)) root["force surface temperature"] = true;
   g::Opt none; none.grains = false; none.velocity = false; none.custom_tags = false;
   g::FM m;
-  const bool ridge_case = ch.flip();
+  const int special = static_cast<int>(ch.range(0, 2));
+  const bool ridge_case = special == 0;
   J c = J::obj();
   J qs = J::arr();
   const std::array<double, 2> ctr = g::gen_centre(ch, fr);
+  if (special == 2)
+    {
+      // (3) a plume with a pointed top (semi-major axis 0 at its first cross section, min depth above it) or a pointed bottom, probed
+      // exactly on its axis: every relative distance there is 0/0
+      J feat = J::obj();
+      feat["model"] = "plume"; feat["name"] = "plume";
+      const int n = static_cast<int>(ch.range(2, 4));
+      J co = J::arr(), de = J::arr(), ax = J::arr(), ec = J::arr(), ro = J::arr();
+      const double d0 = ch.lattice(100e3, 300e3, 50e3);
+      const bool top_point = ch.chance(70), bottom_point = ch.chance(40);
+      for (int i = 0; i < n; ++i)
+        {
+          co.push(jp(ctr[0] + (fr.sph ? 0.25 : 20e3) * i * (ch.flip() ? 1 : 0), ctr[1]));
+          de.push(J(d0 + 150e3 * i));
+          ax.push(J((i == 0 && top_point) || (i == n - 1 && bottom_point) ? 0.0 : (fr.sph ? ch.lattice(0.5, 3, 0.25) : ch.lattice(50e3, 300e3, 10e3))));
+          ec.push(J(ch.lattice(0, 0.875, 0.125)));
+          ro.push(J(ch.lattice(0, 150, 15)));
+        }
+      feat["coordinates"] = co; feat["cross section depths"] = de; feat["semi-major axis"] = ax; feat["eccentricity"] = ec; feat["rotation angles"] = ro;
+      feat["min depth"] = d0 - ch.lattice(20e3, 90e3, 10e3);
+      feat["max depth"] = d0 + 150e3 * (n - 1) + (ch.flip() ? 0.0 : 100e3);
+      J t = J::obj();
+      if (ch.chance(70))
+        {
+          t["model"] = "gaussian";
+          t["depths"] = J::arr({J(d0 - 50e3), J(d0 + 150e3 * (n - 1))});
+          t["centerline temperatures"] = J::arr({J(ch.lattice(1600, 2000, 50)), J(ch.lattice(1600, 2000, 50))});
+          t["gaussian sigmas"] = J::arr({J(ch.lattice(0.1, 0.5, 0.1)), J(ch.lattice(0.1, 0.5, 0.1))});
+        }
+      else { t["model"] = "uniform"; t["temperature"] = 1700.0; }
+      feat["temperature models"] = J::arr({t});
+      J cm = J::obj(); cm["model"] = "uniform"; cm["compositions"] = J::arr({J(0)});
+      feat["composition models"] = J::arr({cm});
+      root["features"] = J::arr({feat});
+      for (int i = 0; i < 14; ++i)
+        {
+          const size_t k = ch.index(co.size());
+          const double depth = ch.chance(50) ? ch.real(feat["min depth"].num(), feat["max depth"].num()) : ch.pick<double>({feat["min depth"].num(), d0, d0 - 1.0, d0 - 25e3, d0 + 1.0, feat["max depth"].num(), d0 + 150e3 * (n - 1)});
+          J q = g::make_query(fr, co[k][0].num(), co[k][1].num(), depth);
+          q["kind"] = "on-plume-axis";
+          qs.push(q);
+        }
+      c["world"] = root.dump();
+      c["queries"] = qs;
+      c["props"] = g::gen_props(ch, 5);
+      return c;
+    }
   if (ridge_case)
     {
       J feat = g::area_feature(ch, fr, none, "oceanic plate", ctr, 0, m);
@@ -254,6 +302,6 @@ int main(int argc, char **argv)
   return run_main("C13", argc, argv,
   {
     {"total_finite", "worlds with 1..4 features of every type, all deterministic models incl. cooling models, operations, ranges (physical parameter domain of DESIGN section 3) x 4..30 queries at degenerate locations (polygon vertex/edge, trench coordinate/chord, dip point, slab tip region, below trench, poles, +-180, planet centre incl. |p|=1e-300, far away, model bottom, feature depth limits) x the generated list and a list with every property kind; each case runs in its own process so a crash is a failure of the case. Non-trivial: degenerate kinds", 150, gen_total, check_total, 100, true, true},
-    {"special_configurations", "oceanic plate with a half-space / plate model whose ridge runs through the plate, probed exactly on the ridge at depth 0 and below (age zero); area feature whose point-wise max depth pinches out to the min depth along one edge, with a linear model, probed on that edge and its end points at exactly that depth (zero thickness). Same oracle: finite values or a std::exception", 100, gen_special, check_total, 100, true, true},
+    {"special_configurations", "oceanic plate with a half-space / plate model whose ridge runs through the plate, probed exactly on the ridge at depth 0 and below (age zero); area feature whose point-wise max depth pinches out to the min depth along one edge, with a linear model, probed on that edge and its end points at exactly that depth (zero thickness). Same oracle: finite values or a std::exception; plume with a pointed top or bottom (semi-major axis 0 at its first / last cross section, min depth above the first section) probed exactly on its axis at the section depths, between and beyond them", 100, gen_special, check_total, 100, true, true},
   });
 }
